@@ -195,6 +195,7 @@ pub fn run_child() -> i32 {
         return 3;
     }
     seams::activate(epoch.hash_seed, epoch.clock_s, epoch.pid);
+    seams::set_cpus(epoch.cpus);
     std::panic::set_hook(Box::new(|_| {}));
     entrait_macros::verif::install_hook(hook);
 
